@@ -75,6 +75,14 @@ type Reader struct {
 	Lax string
 }
 
+// tol: any Lax mode also tolerates everything the implementation is known to
+// tolerate (it models the implementation's actual grammar): flags/booleans of any
+// value, variant tags >= 2 (nothing decoded), 9-byte integers below 2^56,
+// over-wide compact integers, unordered keys, the unchecked redundant key length,
+// unused bitfield bits, encoder-only bounds, counts larger than the input and
+// short reads of byte strings. Lax "impl" = only these tolerances.
+func (r *Reader) tol() bool { return r.Lax != "" }
+
 type rejectPanic struct{ r *Reject }
 
 func (r *Reader) fail(reason, path, detail string, off int) {
@@ -112,7 +120,7 @@ func (r *Reader) CompactInt(path string) uint64 {
 	if l < 8 {
 		x |= uint64(p&(0xFF>>uint(l+1))) << (8 * uint(l))
 	}
-	if !bytes.Equal(Compact(x), r.Data[start:r.Pos]) {
+	if !bytes.Equal(Compact(x), r.Data[start:r.Pos]) && !(r.tol() && l == 8) {
 		rej := &Reject{Reason: RNonMinimal, Off: start, Path: path, Detail: fmt.Sprintf("%x encodes %d", r.Data[start:r.Pos], x), NineByte: l == 8}
 		panic(rejectPanic{rej})
 	}
@@ -124,6 +132,12 @@ func (r *Reader) Count(path string, elemMin, elemSize int) int {
 	off := r.Pos
 	n := r.CompactInt(path)
 	remain := uint64(len(r.Data) - r.Pos)
+	if r.tol() {
+		if n > 1<<24 {
+			n = 1 << 24 // the element loop ends at the first missing byte anyway
+		}
+		return int(n)
+	}
 	if elemMin > 0 && (n > remain || n*uint64(elemMin) > remain) {
 		panic(rejectPanic{&Reject{Reason: RCountTooBig, Off: off, Path: path,
 			Detail: fmt.Sprintf("count %d x >=%d bytes, %d remain", n, elemMin, remain), Count: n, ElemSize: elemSize}})
@@ -139,6 +153,9 @@ func (r *Reader) Blob(path string) []byte {
 	off := r.Pos
 	n := r.CompactInt(path)
 	remain := len(r.Data) - r.Pos
+	if n > uint64(remain) && r.tol() && remain > 0 && n < 1<<26 {
+		return r.Take(remain, path) // short read accepted by the implementation
+	}
 	if n > uint64(remain) {
 		rej := &Reject{Reason: RCountTooBig, Off: off, Path: path, Detail: fmt.Sprintf("byte string of %d, %d remain", n, remain),
 			InBlob: remain > 0, Count: n, ElemSize: 1}
@@ -149,10 +166,10 @@ func (r *Reader) Blob(path string) []byte {
 
 func (r *Reader) flag(reason, path string) bool {
 	b := r.Take(1, path)[0]
-	if b > 1 {
+	if b > 1 && !r.tol() {
 		r.fail(reason, path, fmt.Sprintf("octet %#x", b), r.Pos-1)
 	}
-	return b == 1
+	return b != 0
 }
 
 // RefDecode parses one value of type t from data. rej == nil means canonical,
@@ -183,7 +200,7 @@ func (r *Reader) cintFields(t reflect.Type, path string) {
 		p := path + "." + t.Field(i).Name
 		x := r.CompactInt(p)
 		bits := t.Field(i).Type.Bits()
-		if bits < 64 && x >= uint64(1)<<uint(bits) {
+		if bits < 64 && x >= uint64(1)<<uint(bits) && !r.tol() {
 			r.fail(RCIntWide, p, fmt.Sprintf("%d does not fit %d bits", x, bits), off)
 		}
 	}
@@ -226,7 +243,7 @@ func (r *Reader) Value(t reflect.Type, path string) {
 		r.Value(fieldType(t, "PackageSpec"), path+".PackageSpec")
 		r.Value(fieldType(t, "Context"), path+".Context")
 		off := r.Pos
-		if x := r.CompactInt(path + ".CoreIndex"); x >= 1<<16 {
+		if x := r.CompactInt(path + ".CoreIndex"); x >= 1<<16 && !r.tol() {
 			r.fail(RCIntWide, path+".CoreIndex", fmt.Sprintf("%d does not fit 16 bits", x), off)
 		}
 		r.Take(32, path+".AuthorizerHash")
@@ -255,6 +272,9 @@ func (r *Reader) Value(t reflect.Type, path string) {
 		return
 	case tTicketsOrKeys:
 		b := r.Take(1, path+".tag")[0]
+		if b > 1 && r.tol() {
+			return
+		}
 		if b > 1 {
 			r.fail(RTagRange, path+".tag", fmt.Sprintf("tag %#x", b), r.Pos-1)
 		}
@@ -266,6 +286,9 @@ func (r *Reader) Value(t reflect.Type, path string) {
 		return
 	case tOperandOrXfer:
 		b := r.Take(1, path+".tag")[0]
+		if b > 1 && r.tol() {
+			return
+		}
 		if b > 1 {
 			r.fail(RTagRange, path+".tag", fmt.Sprintf("tag %#x", b), r.Pos-1)
 		}
@@ -279,7 +302,7 @@ func (r *Reader) Value(t reflect.Type, path string) {
 		off := r.Pos
 		b := r.Take(types.AvailBitfieldBytes, path)
 		for i := types.CoresCount; i < 8*len(b); i++ {
-			if b[i/8]&(1<<uint(i%8)) != 0 {
+			if b[i/8]&(1<<uint(i%8)) != 0 && !r.tol() {
 				r.fail(RUnusedBits, path, fmt.Sprintf("bit %d set, %d cores", i, types.CoresCount), off+i/8)
 			}
 		}
@@ -318,10 +341,10 @@ func (r *Reader) Value(t reflect.Type, path string) {
 			}
 			koff := r.Pos
 			k := r.Blob(p + ".key")
-			if uint64(len(k)) != kl {
+			if uint64(len(k)) != kl && !r.tol() {
 				r.fail(RKeyLen, p+".keylen", fmt.Sprintf("announces %d, key has %d bytes", kl, len(k)), off)
 			}
-			if i > 0 && bytes.Compare(prev, k) >= 0 {
+			if i > 0 && bytes.Compare(prev, k) >= 0 && !r.tol() {
 				r.fail(RKeyOrder, p+".key", "not strictly ascending", koff)
 			}
 			prev = k
@@ -379,11 +402,11 @@ func (r *Reader) Value(t reflect.Type, path string) {
 		n := r.Count(path, minSize(t.Elem()), int(t.Elem().Size()))
 		switch t {
 		case typeOf[types.AuthPool]():
-			if n > types.AuthPoolMaxSize {
+			if n > types.AuthPoolMaxSize && !r.tol() {
 				r.fail(RBound, path, fmt.Sprintf("%d entries, at most %d", n, types.AuthPoolMaxSize), off)
 			}
 		case typeOf[types.BlocksHistory]():
-			if n > types.MaxBlocksHistory {
+			if n > types.MaxBlocksHistory && !r.tol() {
 				r.fail(RBound, path, fmt.Sprintf("%d entries, at most %d", n, types.MaxBlocksHistory), off)
 			}
 		case typeOf[types.Ancestry]():
@@ -441,7 +464,7 @@ func (r *Reader) mapValue(t reflect.Type, path string) {
 			default:
 				less = bytes.Compare(prev, k) < 0
 			}
-			if !less && t != tAccOutput {
+			if !less && t != tAccOutput && !r.tol() {
 				r.fail(RKeyOrder, p+".key", "not strictly ascending", koff)
 			}
 		}
